@@ -105,9 +105,7 @@ pub fn run(ctx: &Ctx) -> Report {
                     a.restore_checkpoint(&cp);
                 }
             });
-            if sample_key(seed, i) < (1u64 << 50) {
-                acc.sample(sample_key(seed, i), json!({"tree": t.hex()}));
-            }
+            acc.maybe_sample(sample_key(seed, i), || json!({"tree": t.hex()}));
         });
         rep.absorb(acc);
     }
